@@ -192,11 +192,15 @@ pub fn check_sweep(shape: &Shape, value: &Value, l: &mut Local) -> CaseResult {
         let m = o.len();
         // every capacity for short outputs; a window around the threshold plus a spread otherwise
         let caps: Vec<usize> = if m <= 96 {
-            (0..=m + 2).collect()
+            // a roomier tail as well: the bytes behind the output must stay untouched however much room is left
+            let mut v: Vec<usize> = (0..=m + 2).collect();
+            v.extend([m + 5, m + 9, m + 10, m + 11, m + 16, m + 40]);
+            v
         } else {
             let mut v: Vec<usize> = (0..8).collect();
             v.extend((1..8).map(|k| k * m / 8));
             v.extend(m - 4..=m + 2);
+            v.extend([m + 9, m + 10, m + 24]);
             v
         };
         for (k, c) in caps.iter().enumerate() {
